@@ -172,3 +172,32 @@ func verifLemmaHeaderRoundTrip(data []byte) []byte {
 	}
 	return out
 }
+
+// ---- Ref round trips (C13)
+
+func verifLemmaRefJSON(s string) (Ref, Ref, error) {
+	r := MustCreateRef(s)
+	b, err := r.MarshalJSON()
+	if err != nil {
+		return r, Ref{}, err
+	}
+	var r2 Ref
+	err = r2.UnmarshalJSON(b)
+	return r, r2, err
+}
+
+func verifLemmaRefGob(s string) (Ref, Ref, error) {
+	r := MustCreateRef(s)
+	b, err := r.GobEncode()
+	if err != nil {
+		return r, Ref{}, err
+	}
+	var r2 Ref
+	err = r2.GobDecode(b)
+	return r, r2, err
+}
+
+func verifLemmaZeroRefJSON() ([]byte, error) {
+	var r Ref
+	return r.MarshalJSON()
+}
